@@ -77,6 +77,9 @@ Definition dNodeObj : dec nodever :=
 
 Definition dPG : dec pgobj :=
   let* i := dPos in let* u := dZ in let* q := dZ in let* m := dZ in
+  (* number of status conditions already on the object, annotations present: delivered to the
+     real cache, no effect on the view *)
+  let* _ := dZ in let* _ := dZ in
   if q <? 0 then fail else ret (mkPG i u q m).
 
 Inductive op := OEv (e : event) | OSnap.
@@ -189,7 +192,7 @@ Fixpoint run_dump (eps : Z) (c : cache) (ops : list op) : list Z :=
   | [] => []
   | OEv e :: r => let c' := handle eps c e in [-101; step_code eps c e] ++ eCache c' ++ run_dump eps c' r
   | OSnap :: r => [-104] ++ eCache c ++ [-102] ++ eSnap eps c (take_snapshot eps c) ++
-                  [-103] ++ eCache c ++ run_dump eps c r
+                  [-103] ++ eCache c ++ [-105; 1] ++ run_dump eps c r
   end.
 
 Definition events_of (ops : list op) : list event :=
@@ -213,8 +216,8 @@ Definition entry (sel : Z) (toks : list Z) : list Z :=
   | 102 => match run_dec (dPair dCache dCache) toks with
            | Some (a, b) => eBool (law_converge a b)
            | None => bad_input end
-  | 103 => match run_dec (dPair dCache dCache) toks with
-           | Some (a, b) => eBool (law_untouched a b)
+  | 103 => match run_dec (let* a := dCache in let* b := dCache in let* same := dZ in ret (a, b, same)) toks with
+           | Some (a, b, same) => eBool (law_untouched a b && (same =? 1))
            | None => bad_input end
   | 104 => match run_dec (dPair dCache dSnap) toks with
            | Some (c, (s, hz)) => eBool (law_snapshot_hz c s hz)
